@@ -410,6 +410,25 @@ class MArr:
         return tuple(e.state() for e in self.elems)
 
 
+class MRec:
+    """std.Signal[Record] / std.NoresetSignal[Record]: one signal per field (no nesting)"""
+
+    def __init__(self, name, fields, noreset):
+        self.name = name
+        self.elems = []
+        for fn, k, w, d in fields:
+            h = MSig(k, w, d, name=f"{name}.{fn}", noreset=noreset)
+            setattr(self, fn, h)
+            self.elems.append(h)
+
+    def commit(self):
+        for e in self.elems:
+            e.commit()
+
+    def state(self):
+        return tuple(e.state() for e in self.elems)
+
+
 class Ctx:
     """one sequential context of the reference rendering"""
 
